@@ -24,6 +24,11 @@ if int(variant) >= 6:
           "THERE when that breaks this property through a public entry point; defects whose trigger is a numeric or structural edge "
           "(size-1 dimensions, empty shapes, zero-size reductions, duplicate names across nesting levels, negative steps/indices, "
           "dtype promotion) are welcome as long as ordinary use does not expose them.\n")
+if int(variant) >= 8:
+    t += ("\nFor this variant prefer a defect in how TWO FEATURES COMBINE (each correct alone): e.g. an optimisation that is valid for one "
+          "argument kind / interpretation / semiring / dtype / shape class but is applied to another; a fast path guarded by a condition that is "
+          "slightly too weak; an early return that skips a later normalisation step; an equality / identity / hash test used where the other "
+          "notion was meant; iteration over a dict or set where order or multiplicity matters. Keep the diff under ~15 changed lines.\n")
 t += "\n\nSites ALREADY USED by earlier seeded changes (for any property) — choose a DIFFERENT function and mechanism:\n" + "\n".join(used) + "\n"
 open(f'/tmp/seedprompt_{pid}_{variant}.txt','w').write(t)
 print(f'/tmp/seedprompt_{pid}_{variant}.txt')
